@@ -772,7 +772,17 @@ theorem pres_cancelByDrain (w : World) (rid : Nat) : Pres w (cancelByDrain w rid
     · split
       · exact Pres.refl w
       · rename_i t ht
-        exact (pres_setT_inflight ht _).trans (pres_finishReq _ _ _ _)
+        split <;> exact (pres_setT_inflight ht _).trans (pres_finishReq _ _ _ _)
+    · exact Pres.refl w
+
+theorem pres_respondHdr (w : World) (rid status : Nat) : Pres w (respondHdr w rid status) := by
+  unfold respondHdr
+  split
+  · exact Pres.refl w
+  · rename_i r hr
+    split
+    · rename_i tid hph
+      exact pres_setR (r := { r with started := some (r.started.getD status), rtDeadline := none }) (Or.inl ⟨r, getR_mem hr, rfl⟩)
     · exact Pres.refl w
 
 /-! ### drains -/
@@ -1377,6 +1387,7 @@ theorem J_applyOp (w : World) (op : Op) (j : J w) : J (applyOp w op) := by
     exact J_settle _ _ (j.step (pres_appendR w { id := r, svc := svc, cookie := ck, hc := hc } trivial))
   | release l k => simp only [applyOp]; exact J_settle _ _ (J_release _ _ _ j)
   | respond r st => simp only [applyOp]; exact J_settle _ _ (j.step (pres_respond _ _ _))
+  | respondHdr r st => simp only [applyOp]; exact J_settle _ _ (j.step (pres_respondHdr _ _ _))
   | advance d => simp only [applyOp]; exact J_advance _ _ _ j
 
 theorem J_init : J ({} : World) :=
